@@ -68,6 +68,16 @@ where
 ///
 /// [\[5\] Name](https://www.w3.org/TR/2008/REC-xml-20081126/#NT-Name)
 fn name(input: &str) -> IResult<&str, &str> {
+    // a name is not empty and starts with a NameStartChar (not with a digit, '-' or '.')
+    verify(declared_name, |v: &str| {
+        v.chars().next().is_some_and(xmlchar::is_name_start_char)
+    })(input)
+}
+
+/// The name in a general entity or notation declaration.
+///
+/// FIXME: any run of name characters is taken (declarations named `1` are in use).
+fn declared_name(input: &str) -> IResult<&str, &str> {
     recognize(tuple((multinamestartchar0, multinamechar0)))(input)
 }
 
@@ -778,7 +788,7 @@ fn entity_decl(input: &str) -> IResult<&str, model::DeclarationEntity<'_>> {
 fn ge_decl(input: &str) -> IResult<&str, model::DeclarationGeneralEntity<'_>> {
     map(
         tuple((
-            delimited(tuple((tag("<!ENTITY"), multispace1)), name, multispace1),
+            delimited(tuple((tag("<!ENTITY"), multispace1)), declared_name, multispace1),
             terminated(entity_def, tuple((multispace0, tag(">")))),
         )),
         model::DeclarationGeneralEntity::from,
@@ -877,7 +887,7 @@ fn enc_name(input: &str) -> IResult<&str, &str> {
 fn notation_decl(input: &str) -> IResult<&str, model::DeclarationNotation<'_>> {
     map(
         tuple((
-            preceded(tuple((tag("<!NOTATION"), multispace1)), name),
+            preceded(tuple((tag("<!NOTATION"), multispace1)), declared_name),
             delimited(
                 multispace1,
                 alt((
